@@ -38,7 +38,41 @@ func (it *interp) event(name string, args []*Term, pos ssa.Instruction, res *Ter
 		cc := c.Common()
 		if !cc.IsInvoke() {
 			for _, a := range cc.Args {
-				ev.Addrs = append(ev.Addrs, addrOfVal(it.get(a)))
+				v := it.get(a)
+				ev.Addrs = append(ev.Addrs, addrOfVal(v))
+				n := -1
+				switch s := v.(type) {
+				case slc:
+					if k, ok := s.length(); ok {
+						n = k
+					}
+				case tv:
+					if _, isSlice := a.Type().Underlying().(*types.Slice); isSlice {
+						if k, ok := it.lenFact[s.t.String()]; ok {
+							n = k
+						} else if k, ok := it.m.TermLen[s.t.String()]; ok {
+							n = k
+						} else if s.t.Op == "sub" && len(s.t.Args) == 3 {
+							// x[lo:hi] of an opaque slice with constant bounds
+							lo, ok1 := intOf(s.t.Args[1])
+							hi, ok2 := intOf(s.t.Args[2])
+							if ok1 && ok2 {
+								n = hi - lo
+							} else if ok1 {
+								if k, ok := it.lenFact[s.t.Args[0].String()]; ok {
+									n = k - lo
+								} else if k, ok := it.m.TermLen[s.t.Args[0].String()]; ok {
+									n = k - lo
+								}
+							}
+						}
+					} else {
+						n = -2
+					}
+				default:
+					n = -2
+				}
+				ev.Lens = append(ev.Lens, n)
 			}
 		}
 	}
